@@ -208,6 +208,9 @@
  * <tr><td>Duplicate data name</td><td>@c CIF_DUP_ITEMNAME</td><td>parse and drop the item</td></tr>
  * <tr><td colspan='3'>If a duplicate item name is encountered then it and its associated value(s) are dropped,
  *     including when the duplicate appears in a loop.</td></tr>
+ * <tr><td>Invalid data name</td><td>@c CIF_INVALID_ITEMNAME</td><td>parse and drop the item</td></tr>
+ * <tr><td colspan='3'>A data name that no item can bear, such as a bare underscore, is handled like a duplicate
+ *     one: it and its associated value(s) are dropped.</td></tr>
  * <tr><td>Unexpected value</td><td>@c CIF_UNEXPECTED_VALUE</td><td>ignore the value</td></tr>
  * <tr><td colspan='3'>This error occurs when a value appears outside a list or loop without being paired with a
  *     dataname or (in a table) a key.</td></tr>
@@ -1161,18 +1164,25 @@ static int parse_container(struct scanner_s *scanner, cif_container_tp *containe
                         result = ((container == NULL) ? CIF_NOSUCH_ITEM
                                 : cif_container_get_item_loop(container, name, NULL));
 
+                        /* check for names that no item can bear, such as a bare underscore */
+                        if ((result == CIF_NOSUCH_ITEM)
+                                && ((result = cif_normalize_item_name(name, -1, NULL, CIF_INVALID_ITEMNAME))
+                                        == CIF_OK)) {
+                            result = CIF_NOSUCH_ITEM;
+                        }
+
                         if (result == CIF_NOSUCH_ITEM) {
                             result = parse_item(scanner, container, name);
-                        } else if (result == CIF_OK) {
-                            /* error: duplicate data name */
-                            result = scanner->error_callback(CIF_DUP_ITEMNAME, scanner->line,
+                        } else if ((result == CIF_OK) || (result == CIF_INVALID_ITEMNAME)) {
+                            /* error: duplicate or invalid data name */
+                            result = scanner->error_callback(
+                                    ((result == CIF_OK) ? CIF_DUP_ITEMNAME : CIF_INVALID_ITEMNAME), scanner->line,
                                     scanner->column - TVALUE_LENGTH(scanner), TVALUE_START(scanner),
                                     TVALUE_LENGTH(scanner), scanner->user_data);
-                            if (result != CIF_OK) {
-                                goto container_end;
+                            if (result == CIF_OK) {
+                                /* recover by rejecting the item (but still parsing the associated value) */
+                                result = parse_item(scanner, container, NULL);
                             }
-                            /* recover by rejecting the item (but still parsing the associated value) */
-                            result = parse_item(scanner, container, NULL);
                         }
 
                         free(name);
@@ -1563,13 +1573,21 @@ static int parse_loop_header(struct scanner_s *scanner, cif_container_tp *contai
                 if ((result == CIF_NOSUCH_ITEM) && (container != NULL)) {
                     result = find_header_name(*name_list_head, *next_namep, (*next_namep)->string);
                 }
+                /* check for names that no item can bear, such as a bare underscore */
+                if ((result == CIF_NOSUCH_ITEM)
+                        && ((result = cif_normalize_item_name((*next_namep)->string, -1, NULL, CIF_INVALID_ITEMNAME))
+                                == CIF_OK)) {
+                    result = CIF_NOSUCH_ITEM;
+                }
                 switch (result) {
                     case CIF_NOSUCH_ITEM:
                         /* the expected case */
                         break;
                     case CIF_OK:
-                        /* error: duplicate item name */
-                        if ((result = scanner->error_callback(CIF_DUP_ITEMNAME, scanner->line,
+                    case CIF_INVALID_ITEMNAME:
+                        /* error: duplicate or invalid item name */
+                        if ((result = scanner->error_callback(
+                                ((result == CIF_OK) ? CIF_DUP_ITEMNAME : CIF_INVALID_ITEMNAME), scanner->line,
                                 scanner->column - TVALUE_LENGTH(scanner), TVALUE_START(scanner),
                                 TVALUE_LENGTH(scanner), scanner->user_data)) == CIF_OK) {
                             /* recover by ignoring the name, and later its associated values in the loop body */
